@@ -166,6 +166,8 @@ class Env:
         self.stop_waits = []      # condition-variable waits of stop() that establish insideLoopBody == false
         self.counts = {R1: 0, R2: 0, R3: 0, R4: 0, R5: 0, R6: 0}
         self.launch_kinds = set()
+        self.locks_published = []   # (node, path) where the loop thread acquires runningMutex while insideLoopBody is published
+        self.dtor_locked_blocks = set()   # blocks of the destructor's own CFG entered with runningMutex held
 
     def count(self, rule, n=1):
         self.counts[rule] += n
@@ -720,6 +722,8 @@ def check_loop_closure(E, f, lam, op):
             locks2, known, prob = LockState.apply(locks, known, ev)
             if prob:
                 found.und(R3, prob, n)
+            if pub and LockState.holds(locks2, MTX) and not LockState.holds(locks, MTX):
+                E.locks_published.append((n, tu.fn_loc(op)))
             if LockState.holds(locks2, MTX) != LockState.holds(locks, MTX):
                 obs = frozenset()
                 toks = frozenset(t for t in toks if t[1] != 'o')
@@ -1329,6 +1333,8 @@ def check_dtor(E):
         if i == 0:
             cur['at'] = (blk.id, st)
         locks, known, cleared, owe, nscope, j, toks = st
+        if i == 0 and LockState.holds(locks, MTX) and blk is g.blocks.get(blk.id):
+            E.dtor_locked_blocks.add(blk.id)
         ev = sy.event(e)
         n = tu.node(e[1]) if e[0] == 'S' else None
         if ev is None:
@@ -1932,6 +1938,18 @@ def check_acks(E, closures):
         loc = tu.loc(tu.node(b.cond))
         if escapes:
             ctx.ok(R5, inst, 'the wait has another way out (an exit that does not depend on a flag)', loc)
+            continue
+        if fn['id'] == E.dtor['id'] and b.id in E.dtor_locked_blocks and (INSIDE, False) in alts and E.locks_published:
+            # wait-for cycle: the destructor holds runningMutex and waits for the flag; the loop thread holds the flag and waits
+            # for the mutex.  Each half is harmless alone (the loop thread of today retracts the flag before it locks).
+            ln, lfn = E.locks_published[0]
+            E.count(R5)
+            ctx.violation(R5, inst, 'the destructor busy-waits for insideLoopBody == false while it holds runningMutex, and the '
+                          'loop thread acquires runningMutex with insideLoopBody still published (%s): when the destructor takes '
+                          'the mutex between the publication and that acquisition, the loop thread blocks on the mutex with the '
+                          'flag set and the destructor spins forever - destroying the AsyncLoop does not terminate'
+                          % (tu.loc(ln) if ln is not None else lfn), loc,
+                          key='%s|%s|%s|spin-under-mutex-while-loop-locks-published' % (R5, FILE, 'AsyncLoop::~AsyncLoop'))
             continue
         fields = {a[0] for a in alts}
         # who writes these flags?
